@@ -887,6 +887,34 @@ def different_shapes_on_exclusive_types(rng, doc, s):
 
 
 @operator("OverlappingFieldsCanBeMergedChecker")
+def typename_against_another_shape_on_exclusive_types(rng, doc, s):
+    """`... on A { k: __typename } ... on B { k: someIntOrListField }`: `__typename` is a field of type String!
+    like any other when response shapes are compared."""
+    cands = []
+    for sels, scope, owner in walk_selection_lists(doc, s):
+        if scope in s.types and s.types[scope].kind in ("interface", "union"):
+            poss = [s.types[n] for n in s.possible_types(scope)]
+            for t1 in poss:
+                for t2 in poss:
+                    if t1 is t2:
+                        continue
+                    for f2 in t2.fields:
+                        if f2.args or not _is_leaf(s, f2.type):
+                            continue
+                        if f2.type != S.nn(S.named("String")):
+                            cands.append((sels, t1, t2, f2))
+    if not cands:
+        return None
+    sels, t1, t2, f2 = rng.choice(cands)
+    pair = [opgen.OInline(t1.name, [opgen.OField("__typename", t1.name, "shape")]),
+            opgen.OInline(t2.name, [opgen.OField(f2.name, t2.name, "shape")])]
+    if rng.random() < 0.5:
+        pair.reverse()
+    sels.extend(pair)
+    return True
+
+
+@operator("OverlappingFieldsCanBeMergedChecker")
 def conflict_between_object_and_interface_parents(rng, doc, s):
     """`... on Dog { k: nickname } ... on Pet { k: name }`: an object type and an interface it implements
     do not exclude each other, so equal return types do not make the two fields mergeable."""
